@@ -876,7 +876,8 @@ Definition unmarshal_inet (d : odata) (t : gty) : ures :=
       | _ => match ip_to4 data with
              | Some v4 => Ok (GStr false (ipv4_string v4))
              | None => if (length data =? 16)%nat then Ok (GStr false (ipv6_string data))
-                       else Err       (* net.IP.String of other lengths ("?" + hex): not modelled, never generated *)
+                       else (* net.IP.String of a slice that is neither 4 nor 16 bytes long: "?" and the bytes in hex *)
+                         Ok (GStr false (63 :: flat_map (fun b => [hexdigit (b / 16); hexdigit (b mod 16)]) data))
              end
       end
   | _ => Err
